@@ -1,6 +1,7 @@
 import AioProps.C09Lemmas
 import AioProps.C09Cex
 import AioProps.C09Conserve
+import AioProps.C09Pause
 /-!
 # C09 — property theorems (body decoding: transparent, memory-bounded, always progresses)
 
@@ -70,10 +71,10 @@ reader, after ANY sequence of transport deliveries, peer close, `read(n)`, `read
 the application followed by the bytes still buffered are exactly the bytes the decoder stage
 passed to `StreamReader.feed_data`, in order: nothing is lost, duplicated or reordered. -/
 theorem conservation (c : Codec) (limit : Nat) (framing : Framing) (length : Nat)
-    (compressed sniff checkEof lax : Bool) (mt : Nat) (ops : List Op) :
-    let w := run (World.init c limit framing length compressed sniff checkEof lax mt) ops
+    (compressed sniff checkEof lax : Bool) (mt : Nat) (clearOnNeeds : Bool) (ops : List Op) :
+    let w := run (World.init c limit framing length compressed sniff checkEof lax mt clearOnNeeds) ops
     w.delivered ++ w.buf.flatten = w.decoded := by
-  have h0 : Cons (World.init c limit framing length compressed sniff checkEof lax mt) := by
+  have h0 : Cons (World.init c limit framing length compressed sniff checkEof lax mt clearOnNeeds) := by
     simp [Cons, World.init, flat]
   exact cons_run ops _ h0
 
@@ -184,7 +185,7 @@ theorem corrupt_is_error {c : Codec} (w : World c) (data : Bytes)
     let w' := parserFeed w data
     w'.exc = some .contentEncoding ∧ w'.buf = w.buf ∧ w'.ppLive = false ∧ w'.hasMore = false := by
   have hd' : data.isEmpty = false := by cases data <;> simp_all
-  simp [parserFeed, hl, hd', ppFeed, hf, feedUntilEof, payFeed, decodeFeed, sniffStart, hc, hs, maxLen] at *
+  simp [parserFeed, hl, hd', ppFeed, ppFeedCore, hf, feedUntilEof, payFeed, decodeFeed, sniffStart, hc, hs, maxLen] at *
   simp [hbad, setExc]
   split <;> simp
 
@@ -235,6 +236,58 @@ theorem progress_counterexample_stale_pause :
     staleWorld.buf = [] ∧ staleWorld.eof = false ∧ staleWorld.exc = none ∧ staleWorld.trPaused = false ∧
     staleWorld.connected = true ∧ staleWorld.hasMore = true ∧ staleWorld.tail = staleSeg2.drop 3 ∧ staleWorld.chunkSize = 5 ∧
     staleWorld.delivered = List.replicate 9 88 ∧ (step staleWorld .readAny).2 = .blocked := by
+  decide +kernel
+
+/-- The same defect in its two sibling alignments (known findings K9, K10), still on the model of
+the code before the repair: the pausing read ends after the chunk's data but before its CRLF, or
+inside the next chunk-size line — the body is complete on the wire, 9 of 14 bytes are delivered,
+no EOF, no error. -/
+theorem progress_counterexample_stale_pause_siblings :
+    (staleRun false k9Ops).delivered = List.replicate 9 88 ∧ (staleRun false k9Ops).eof = false ∧
+    (staleRun false k9Ops).exc = none ∧ (staleRun false k9Ops).hasMore = true ∧
+    (staleRun false k10Ops).delivered = List.replicate 9 88 ∧ (staleRun false k10Ops).eof = false ∧
+    (staleRun false k10Ops).exc = none ∧ (staleRun false k10Ops).hasMore = true := by
+  decide +kernel
+
+/-! ## the repaired parser (`clearOnNeeds = true`, i.e. `Gen.C09.needsInputClearsPause = true`) -/
+
+/-- **A NEEDS_INPUT return leaves no pause flag behind** (repaired code, every framing, every
+codec, every input): if `HttpPayloadParser.feed_data` returns PAYLOAD_NEEDS_INPUT then `_paused`
+is clear. -/
+theorem needs_input_clears_pause {c : Codec} (w : World c) (d : Bytes)
+    (hf : (ppFeed w d).clearOnNeeds = true) (hr : (ppFeed w d).res = .needs) : (ppFeed w d).paused = false :=
+  ppFeed_needs_clears_pause w d hf hr
+
+/-- **No stale pause, over all operation sequences** (repaired code; all codecs, framings, limits).
+After ANY sequence of deliveries, reads, `set_read_chunk_size`, `BaseRequest.read()` steps and
+peer close: if the payload parser is alive, no error is set and the parser holds no pending
+input, then its pause flag is clear — the precondition of the stale-pause stall
+(`progress_counterexample_stale_pause`) is unreachable. -/
+theorem no_stale_pause (c : Codec) (limit : Nat) (framing : Framing) (length : Nat)
+    (compressed sniff checkEof lax : Bool) (mt : Nat) (ops : List Op) :
+    let w := run (World.init c limit framing length compressed sniff checkEof lax mt true) ops
+    w.ppLive = true → w.parserLive = true → w.exc = none → w.hasMore = false → w.paused = false := by
+  intro w
+  have h0 : NoStale (World.init c limit framing length compressed sniff checkEof lax mt true) := by
+    intro _ _ _ _ _; rfl
+  have hf : FlagOn (World.init c limit framing length compressed sniff checkEof lax mt true) := rfl
+  exact ns_run ops _ h0 (flag_run ops _ hf)
+
+/-- the same for the model instance the driver runs (flag taken from the probe of the source) -/
+theorem no_stale_pause_current (hfl : Gen.C09.needsInputClearsPause = true) (c : Codec) (limit : Nat)
+    (framing : Framing) (length : Nat) (compressed sniff checkEof lax : Bool) (mt : Nat) (ops : List Op) :
+    let w := run (World.init c limit framing length compressed sniff checkEof lax mt Gen.C09.needsInputClearsPause) ops
+    w.ppLive = true → w.parserLive = true → w.exc = none → w.hasMore = false → w.paused = false := by
+  rw [hfl]; exact no_stale_pause c limit framing length compressed sniff checkEof lax mt ops
+
+/-- **The three stale-pause scenarios reach end-of-body on the repaired parser**: same inputs as
+K8 / K9 / K10, consumer keeps reading — all 14 body bytes are delivered, EOF is signalled, no
+error, nothing pending. -/
+theorem stale_pause_scenarios_repaired :
+    (staleRun true k8Ops).delivered = List.replicate 9 88 ++ hello ∧ (staleRun true k8Ops).eof = true ∧
+    (staleRun true k9Ops).delivered = List.replicate 9 88 ++ hello ∧ (staleRun true k9Ops).eof = true ∧
+    (staleRun true k10Ops).delivered = List.replicate 9 88 ++ hello ∧ (staleRun true k10Ops).eof = true ∧
+    (staleRun true k8Ops).exc = none ∧ (staleRun true k9Ops).exc = none ∧ (staleRun true k10Ops).exc = none := by
   decide +kernel
 
 /-- **F19: body lost when the peer closes while the decoder has pending output.** Content-Length
